@@ -74,6 +74,10 @@ CLAIMED = {
          'integer text must equal the canonical numeral of the value in the requested base; scaled_integer text must parse by the stated grammar, carry the sign of the value, not exceed its magnitude, stay within one unit of the last printed digit (plus 1e-16 relative for the 64-bit significand) and be exact whenever the value has <= 18 significant digits and its expansion fits the buffer; the fixed-capacity variants must print what to_chars prints into a buffer of the static capacity',
          'two listed known findings (most negative built-ins; positive-exponent reps above the int64 significand headroom lose low digits); the layout lengths used by the exactness rule mirror how CNL lays text out (no leading zero before the point, d.ddde[-]n)',
          'DESIGN.md section 5 C14'),
+ 'C20': ('exhaustive 8/16-bit exp2 inputs per exponent + 32-bit lattice, integer-neighbour and representable-range generation, and one case per (constant, Rep, Exponent) instantiation, vs MPFR at 256-320 bits',
+         'rep(exp2(x)) must be within one of floor(2^x / 2^E) whenever that is representable and exact for integral x; every <numbers> constant of every representable (Rep, Exponent) format with 8..64-bit reps must be within one unit of the true constant (MPFR const_pi, exp, log, sqrt, const_euler)',
+         'one listed known finding (8/16-bit and unsigned reps are off by 2..3 units for some inputs); the uint32 always-one defect was repaired (fix: commit 74de685) and is replayed as a regression; positive exponents are outside the stated quantifier (at least one integer bit, fractional formats)',
+         'DESIGN.md section 5 C20'),
 }
 
 def main():
